@@ -41,7 +41,8 @@ def _sym(a):
 def _num(a):
     a = np.asarray(a, dtype=object)
     if a.dtype == object and not _sym(a):
-        return np.array(a.tolist(), dtype=float)
+        cplx = any(isinstance(e, complex) for e in a.ravel())
+        return np.array(a.tolist(), dtype=complex if cplx else float).reshape(a.shape)
     return a
 
 
@@ -52,6 +53,12 @@ def h_zeroth(ctx, opname, D, P):
     if 'neq' in op.tags:
         for idx in np.ndindex(*raw[0][0].shape):
             ctx.assume(raw[0][0][idx] != raw[1][0][idx])
+    if 'distinct' in op.tags:
+        z = raw[0][0]
+        for p_ in range(z.shape[0]):
+            for i in range(z.shape[1]):
+                for j in range(i):
+                    ctx.assume(z[p_, i] != z[p_, j])
     y = op.fn(algopy, *[O.wrap(ctx, algopy, a, r) for a, r in zip(op.args, raw)])
     ctx.fact(isinstance(y, algopy.UTPM), 'result is a UTPM')
     if not isinstance(y, algopy.UTPM):
@@ -218,6 +225,8 @@ def units(tier, seed):
 
     D, P = (2, 2) if tier == 'quick' else (3, 3)
     for op in O.catalogue():
+        if 'c14only' in op.tags:
+            continue
         if op.npfn is None and not (op.name.startswith('inv') or op.name.startswith('solve')):
             continue
         add('zeroth/%s/D%d,P%d' % (op.name, D, P), 'h_zeroth', opname=op.name, D=D, P=P)
